@@ -64,3 +64,80 @@ package dtls
 //@ ensures not-too-far-behind-16: highest < 1<<48 && (seqBit) ==> result + 0x8000 >= highest + 1
 //@ ensures not-too-far-behind-8: highest < 1<<48 && (!seqBit) ==> result + 0x80 >= highest + 1
 //@ end
+
+// Configuration of a resumed connection (buildConfig, used by ResumeWithOptions): the defaults (RFC 6347 4.1.2.6: replay
+// window 64) are the starting point and what the application configures wins: the defaults are laid down exactly once
+// and before any option is applied, so an option (WithReplayProtectionWindow) is never overwritten by a default, and
+// without options the window is the default one.
+//@ func buildConfig
+//@ watch dtlsConfig.applyDefaults Option.applyServer
+//@ ensures defaults-once: ncalls("dtlsConfig.applyDefaults") == 1
+//@ ensures defaults-before-options: always("Option.applyServer", "called(\"dtlsConfig.applyDefaults\")")
+//@ ensures no-options-default-window: len(opts) == 0 && result1 == nil ==> result0 != nil && result0.ReplayProtectionWindow == 64
+//@ ensures every-option-applied: result1 == nil ==> ncalls("Option.applyServer") == len(opts)
+//@ ensures failed-option-no-config: result1 != nil ==> result0 == nil
+//@ loop #1: defaults-first: ncalls("dtlsConfig.applyDefaults") == 1 && always("Option.applyServer", "called(\"dtlsConfig.applyDefaults\")")
+//@ loop #1: untouched-before-first-option: cfg != nil && (idx == 0 ==> cfg.ReplayProtectionWindow == 64)
+//@ loop #1: applied-so-far: ncalls("Option.applyServer") == idx
+//@ end
+
+// an option is an application closure over the configuration under construction: kept opaque
+//@ func sharedOption.applyServer
+//@ noinline
+//@ end
+//@ func sharedOption.applyClient
+//@ noinline
+//@ end
+
+// the same for the builders of Client/Server connections
+//@ func buildServerConfig
+//@ watch dtlsConfig.applyDefaults ServerOption.applyServer
+//@ ensures defaults-once: ncalls("dtlsConfig.applyDefaults") == 1
+//@ ensures defaults-before-options: always("ServerOption.applyServer", "called(\"dtlsConfig.applyDefaults\")")
+//@ ensures no-options-default-window: len(opts) == 0 && result1 == nil ==> result0 != nil && result0.ReplayProtectionWindow == 64
+//@ ensures every-option-applied: result1 == nil ==> ncalls("ServerOption.applyServer") == len(opts)
+//@ ensures failed-option-no-config: result1 != nil ==> result0 == nil
+//@ loop #1: defaults-first: ncalls("dtlsConfig.applyDefaults") == 1 && always("ServerOption.applyServer", "called(\"dtlsConfig.applyDefaults\")")
+//@ loop #1: untouched-before-first-option: cfg != nil && (idx == 0 ==> cfg.ReplayProtectionWindow == 64)
+//@ loop #1: applied-so-far: ncalls("ServerOption.applyServer") == idx
+//@ end
+
+//@ func buildClientConfig
+//@ watch dtlsConfig.applyDefaults ClientOption.applyClient
+//@ ensures defaults-once: ncalls("dtlsConfig.applyDefaults") == 1
+//@ ensures defaults-before-options: always("ClientOption.applyClient", "called(\"dtlsConfig.applyDefaults\")")
+//@ ensures no-options-default-window: len(opts) == 0 && result1 == nil ==> result0 != nil && result0.ReplayProtectionWindow == 64
+//@ ensures every-option-applied: result1 == nil ==> ncalls("ClientOption.applyClient") == len(opts)
+//@ ensures failed-option-no-config: result1 != nil ==> result0 == nil
+//@ loop #1: defaults-first: ncalls("dtlsConfig.applyDefaults") == 1 && always("ClientOption.applyClient", "called(\"dtlsConfig.applyDefaults\")")
+//@ loop #1: untouched-before-first-option: cfg != nil && (idx == 0 ==> cfg.ReplayProtectionWindow == 64)
+//@ loop #1: applied-so-far: ncalls("ClientOption.applyClient") == idx
+//@ end
+
+// RFC 9147 4.2.2 / 4.5.1: the truncated sequence number on the wire is completed against the highest record number
+// seen *in the epoch the record was protected in* (a record of a retained older generation is still inside that
+// epoch's window); the completed number is what the AEAD opens with and what the replay window is then asked about.
+// Completing against another epoch's counter makes reordered records of the old epoch undecryptable (dropped).
+//@ func Conn.openCiphertextWithGeneration
+//@ watch Conn.highestRemoteSequenceNumber reconstructSequenceNumber RecordProtection13.Open
+//@ ensures c06-highest-of-own-epoch: called("Conn.highestRemoteSequenceNumber") ==> argAs("Conn.highestRemoteSequenceNumber", 1, uint16(0)) == generation.Epoch
+//@ ensures c06-completed-against-that-highest: called("reconstructSequenceNumber") ==> ncalls("Conn.highestRemoteSequenceNumber") == 1 && argU64("reconstructSequenceNumber", 2) == retU64("Conn.highestRemoteSequenceNumber", 0)
+//@ ensures c06-opened-with-completed-number: called("RecordProtection13.Open") ==> ncalls("reconstructSequenceNumber") == 1 && argU64("RecordProtection13.Open", 2) == retU64("reconstructSequenceNumber", 0)
+//@ ensures c06-reported-number-is-opened-number: result2 == nil ==> called("RecordProtection13.Open") && result1 == argU64("RecordProtection13.Open", 2)
+//@ end
+
+// The option body: the configured window is stored as given (0 selects the default in effectiveReplayProtectionWindow),
+// a negative window is refused and leaves the configuration untouched.
+//@ func WithReplayProtectionWindow$1
+//@ requires args: c != nil
+//@ ensures stored-as-given: window >= 0 ==> result == nil && c.ReplayProtectionWindow == window
+//@ ensures negative-refused: window < 0 ==> result != nil && c.ReplayProtectionWindow == old(c.ReplayProtectionWindow)
+//@ end
+
+// The connection's replay window is the effective window of the configuration (newConnConfigValues above), and the
+// MTU likewise.
+//@ func newConn
+//@ ensures w-replay-window: result != nil && result.replayProtectionWindow == uint(configValues.replayProtectionWindow)
+//@ ensures w-mtu: result.maximumTransmissionUnit == configValues.maximumTransmissionUnit
+//@ ensures fresh-conn: fresh(result)
+//@ end
